@@ -262,17 +262,26 @@ func (in *interp) holds(c Cond) bool {
 	panic("c04: unknown operator " + c.Op)
 }
 
-func (in *interp) nodes(ns []Node) []*xm {
+// nodes returns the expected markers and the element-less text the nodes add to the own text of
+// the enclosing element.
+func (in *interp) nodes(ns []Node) ([]*xm, string) {
 	var out []*xm
+	var text strings.Builder
 	for _, n := range ns {
 		switch {
 		case n.Loop != nil:
-			out = append(out, in.loop(n.Loop)...)
+			ms, t := in.loop(n.Loop)
+			out = append(out, ms...)
+			text.WriteString(t)
 		case n.Probe != nil:
 			out = append(out, in.probe(n.Probe))
+		case n.Text != nil:
+			// same reads as a probe's bracket, written as bare text
+			m := in.probe(n.Text)
+			text.WriteString(n.Text.ID + "(" + strings.ReplaceAll(strings.TrimSuffix(strings.TrimPrefix(m.text, "["), "]"), "|", ",") + ")")
 		}
 	}
-	return out
+	return out, text.String()
 }
 
 func (in *interp) scopeNote() string {
@@ -287,8 +296,9 @@ func (in *interp) scopeNote() string {
 	return "scopes " + strings.Join(parts, " > ")
 }
 
-func (in *interp) loop(l *Loop) []*xm {
+func (in *interp) loop(l *Loop) ([]*xm, string) {
 	var out []*xm
+	var text strings.Builder
 	coll, ok := in.resolve(l.Coll)
 	var items []vals.V
 	if ok {
@@ -318,7 +328,12 @@ func (in *interp) loop(l *Loop) []*xm {
 			produced++
 			why := fmt.Sprintf("instance %d of loop %s (%s in %s), %s", i, l.ID, l.Var, l.Coll, in.scopeNote())
 			if l.Tag == "template" {
-				out = append(out, in.nodes(l.Body)...)
+				ms, t := in.nodes(l.Body)
+				out = append(out, ms...)
+				text.WriteString(t)
+				if len(ms) == 0 {
+					in.stat("template-instance-without-element")
+				}
 			} else {
 				m := &xm{id: l.ID, why: why}
 				if l.Bind != "" {
@@ -340,7 +355,7 @@ func (in *interp) loop(l *Loop) []*xm {
 						m.text, m.kids = raw(v)
 					}
 				} else {
-					m.kids = in.nodes(l.Body)
+					m.kids, m.text = in.nodes(l.Body)
 				}
 				out = append(out, m)
 			}
@@ -352,15 +367,19 @@ func (in *interp) loop(l *Loop) []*xm {
 	if l.Else != nil {
 		if produced == 0 {
 			in.stat("else-rendered")
-			out = append(out, &xm{id: l.Else.ID, kids: in.nodes(l.Else.Body), why: "v-else after loop " + l.ID + " which produced nothing"})
+			ek, et := in.nodes(l.Else.Body)
+			out = append(out, &xm{id: l.Else.ID, kids: ek, text: et, why: "v-else after loop " + l.ID + " which produced nothing"})
 		} else {
 			in.stat("else-consumed")
+			if l.Tag == "template" && len(out) == 0 {
+				in.stat("else-consumed-after-text-only-template-loop")
+			}
 		}
 	}
 	if produced == 0 && len(items) > 0 {
 		in.stat("all-items-filtered")
 	}
-	return out
+	return out, text.String()
 }
 
 func (in *interp) probe(p *Probe) *xm {
